@@ -117,7 +117,10 @@ def run_extrema(mod, ncol, first, withx, casenum, results):
             npaths += 1
             pname = "%s::path%d" % (tag, npaths)
             if exc is not None:
-                results.append((pname + ".no-exception", "failed", {"exception": repr(exc)}, pc))
+                if dse.genuine_exception(exc):
+                    results.append((pname + ".no-exception", "failed", {"exception": repr(exc)}, pc))
+                else:
+                    results.append((pname + ".symbolic execution", "undecided", "shim limitation: %r" % (exc,), pc))
                 continue
             newmax, newmin = a, (b if ncol == 2 else a)
             newmaxx, newminx = (ax if withx else nanx), ((bx if ncol == 2 else ax) if withx else nanx)
@@ -157,6 +160,9 @@ def run_kernels(mod, results):
                 n += 1
                 want = z3.And(z3.Not(v2.nan), z3.Or(v1.nan, cmp_()))
                 g = want if (exc is None and bool(val[0])) else z3.Not(want)
+                if exc is not None and not dse.genuine_exception(exc):
+                    results.append(("%s::path%d.symbolic execution" % (fn, n), "undecided", "shim limitation: %r" % (exc,), pc))
+                    continue
                 if exc is not None:
                     g = z3.BoolVal(False)
                 st, det = dse.check(pc, g)
@@ -166,7 +172,7 @@ def run_kernels(mod, results):
         for pc, val, exc in ex.explore(lambda: mod.nan_absmax(arr([[v1]])[0], arr([[v2]])[0])):
             n += 1
             if exc is not None:
-                results.append(("nan_absmax::path%d.no-exception" % n, "failed", {"exception": repr(exc)}, pc))
+                results.append(("nan_absmax::path%d.no-exception" % n, "failed" if dse.genuine_exception(exc) else "undecided", {"exception": repr(exc)}, pc))
                 continue
             amx, pv = val
             want = z3.And(z3.Not(v2.nan), z3.Or(v1.nan, absz(v2.val) > absz(v1.val)))
@@ -180,6 +186,9 @@ def run_kernels(mod, results):
         for pc, val, exc in ex.explore(lambda: mod.maxmin(arr([r]), arr([x])[0])):
             n += 1
             allnan = z3.And(*[e.nan for e in r])
+            if exc is not None and not dse.genuine_exception(exc) and not isinstance(exc, ValueError):
+                results.append(("maxmin::path%d.symbolic execution" % n, "undecided", "shim limitation: %r" % (exc,), pc))
+                continue
             if exc is not None:
                 st, det = dse.check(pc, allnan)
                 results.append(("maxmin::path%d.raises only on an all-NaN row (%s)" % (n, type(exc).__name__), st, det, pc))
